@@ -215,6 +215,20 @@ def check(F, H1, role='both'):
             return 'conditional'
         return sum(v for op, v in lst if op == 'Add' and v is not None)
     size_r = {fl: total(d.get('length', [])) for fl, d in c_sz.items()}
+    # preferred: decide the reader side from the size / offset *tables* obtained by constant propagation over the 16 flag
+    # valuations (independent of variable names and of the if/else, +=, match form the code uses)
+    tabs = reader_tables(F, sz, ts, hc) if len(hc) == 4 else None
+    if tabs is not None:
+        sizes, offs = tabs
+        base = sizes.get(())
+        size_r = {fl: (sizes.get((fl,), 0) - base) for fl in ('ECU', 'SEID', 'TMSP', 'EXT')}
+        nonadd = [k for k, v in sizes.items() if v != base + sum(size_r[f] for f in k)]
+        if nonadd:
+            for fl in ('ECU', 'SEID', 'TMSP', 'EXT'):
+                if any(fl in k for k in nonadd):
+                    size_r[fl] = 'nonadditive'
+        i_sz = {'length': base}
+        o_sz = ['ECU', 'SEID', 'TMSP', 'EXT']
     size_w = {fl: total(d.get('len', [])) for fl, d in c_tw.items()}
     bits_w = {fl: [v for op, v in d.get('htyp', []) if op == 'BitOr'] for fl, d in c_tw.items()}
     want_size = {'ECU': 4, 'SEID': 4, 'TMSP': 4, 'EXT': 10}
@@ -236,7 +250,22 @@ def check(F, H1, role='both'):
     #      of the sizes of the parts whose bit is set in the key
     H1.sites += 1
     mt = masked_table(ts, 'offset')
-    if mt is not None:
+    if tabs is not None:
+        bad = []
+        for k, v in sorted(offs.items()):
+            want_off = 4 * ('ECU' in k) + 4 * ('SEID' in k)
+            if 'TMSP' in k:
+                if v != want_off:
+                    bad.append(('+'.join(k), v, want_off))
+            elif not (isinstance(v, tuple) and v[0] == 'no-read' and v[1] == 0):
+                bad.append(('+'.join(k) or 'none', v, 'no read, 0'))
+        if not bad:
+            H1.ok(sample={'timestamp_offset_by_flags': {'+'.join(k): v for k, v in sorted(offs.items()) if 'TMSP' in k}, 'method': 'constant propagation over all 16 flag valuations'})
+        else:
+            H1.violation(('timestamp-offset-table' if mt is not None else 'timestamp-offset', ','.join('%s:%s' % (k, g) for k, g, w in bad)[:80]),
+                         'timestamp_dms reads the timestamp at offset(s) %s for flag combination(s) %s but the layout (ECU id 4, session id 4 before it) requires %s' %
+                         ([g for k, g, w in bad], [k for k, g, w in bad], [w for k, g, w in bad]), where=ts.loc(None))
+    elif mt is not None:
         mask, table, default = mt
         bad = []
         size_by_bit = {hc.get('ECU'): 4, hc.get('SEID'): 4}
@@ -384,3 +413,151 @@ def check_parser(b, C, H1):
             H1.violation(('parser-layout', b.path, k), '%s: %s' % (b.path, pr), where=b.loc(None))
     else:
         H1.ok(n=6, sample={'parser': b.path, 'framing_bytes': C, 'payload': 'data[C+hdr .. C+hdr+(len-hdr)]', 'additional_header_slice': '[C+4 .. C+hdr]', 'consumed': 'data.len() - remaining'})
+
+
+# ---------------------------------------------------------------------------------------------
+# constant propagation per flag valuation (finite: 16 valuations of EXT/ECU/SEID/TMSP)
+
+class Unknown(Exception):
+    pass
+
+
+def const_run(F, body, flags, bits, stop_at_index=False, max_steps=400):
+    """Constant propagation through `body` under one valuation of the four header flags: has_<x>() calls return the
+    valuation, reads of `.htyp` return the corresponding bit pattern, everything else must be computable from constants.
+    Returns ('ret', value) at the return, or ('index', value) at the first slice bounds check when stop_at_index.
+    Raises Unknown when a branch depends on anything else (the caller then falls back to the syntactic extraction).
+    Not an execution of adlt: only integer/bool constants and the flag valuation flow; unknown values are tracked as None."""
+    env = {}
+    htyp = sum(bits[f] for f in bits if flags.get(f))
+
+    def place_val(pl):
+        p = pl.get('p', [])
+        if p and p[-1].get('k') == 'f' and p[-1].get('n') == 'htyp':
+            return htyp
+        v = env.get(pl['l'])
+        for e in p:
+            if e['k'] == 'deref':
+                continue
+            if e['k'] == 'f' and isinstance(v, tuple) and e['i'] < len(v):
+                v = v[e['i']]
+            else:
+                return None
+        return v
+
+    def opval(o):
+        if o['k'] == 'const':
+            return o.get('v')
+        return place_val(o['p'])
+
+    def rv_val(rv):
+        k = rv['k']
+        if k == 'use':
+            return opval(rv['o'])
+        if k == 'cast':
+            return opval(rv['o'])
+        if k in ('ref', 'rawptr'):
+            return place_val(rv['p']) if not rv['p'].get('p') or all(e['k'] == 'deref' for e in rv['p']['p']) else None
+        if k == 'bin':
+            a, b = opval(rv['a']), opval(rv['b'])
+            op = rv['op']
+            if a is None or b is None:
+                return None
+            base = op.replace('WithOverflow', '').replace('Unchecked', '')
+            fn = {'Add': lambda: a + b, 'Sub': lambda: a - b, 'Mul': lambda: a * b, 'BitOr': lambda: a | b, 'BitAnd': lambda: a & b, 'BitXor': lambda: a ^ b,
+                  'Shl': lambda: a << b, 'Shr': lambda: a >> b, 'Eq': lambda: int(a == b), 'Ne': lambda: int(a != b), 'Lt': lambda: int(a < b),
+                  'Le': lambda: int(a <= b), 'Gt': lambda: int(a > b), 'Ge': lambda: int(a >= b)}.get(base)
+            if fn is None:
+                return None
+            r = fn()
+            if op.endswith('WithOverflow'):
+                return (r, 0)
+            return r
+        if k == 'un':
+            a = opval(rv['a'])
+            if a is None:
+                return None
+            if rv['op'] == 'Not':
+                return int(not a) if a in (0, 1) else None
+            return None
+        if k == 'agg' and rv.get('ak') == 'tuple':
+            return tuple(opval(o) for o in rv['ops'])
+        return None
+
+    bi = 0
+    for _ in range(max_steps):
+        blk = body.blocks[bi]
+        for s in blk.stmts:
+            if s.k == 'assign':
+                pl = s.d['p']
+                if not pl.get('p'):
+                    env[pl['l']] = rv_val(s.rv)
+                # stores through projections are ignored (tracked values are whole locals only)
+        t = blk.term
+        if t.k == 'goto':
+            bi = t.d['t']
+        elif t.k == 'return':
+            return ('ret', env.get(0))
+        elif t.k == 'call':
+            p = t.callee.path
+            nm = p.split('::')[-1]
+            val = None
+            if p.startswith(SH) and nm in HAS:
+                val = int(bool(flags.get(HAS[nm])))
+            dest = t.d.get('dest')
+            if dest is not None and not dest.get('p'):
+                env[dest['l']] = val
+            if t.d.get('t') is None:
+                raise Unknown('diverging call')
+            bi = t.d['t']
+        elif t.k == 'switch':
+            v = opval(t.d['d'])
+            if v is None:
+                raise Unknown('branch on a non-constant at %s' % body.loc(t.sp))
+            nxt = t.d['otherwise']
+            for (k_, tg) in t.d['vals']:
+                if k_ == v:
+                    nxt = tg
+            bi = nxt
+        elif t.k == 'assert':
+            if stop_at_index and t.d['ak'] == 'BoundsCheck':
+                iv = opval(t.d['ops'][1])
+                if iv is None:
+                    raise Unknown('non-constant index')
+                return ('index', iv)
+            bi = t.d['t']
+        elif t.k == 'drop':
+            bi = t.d['t']
+        else:
+            raise Unknown('terminator ' + t.k)
+    raise Unknown('step limit')
+
+
+def flag_valuations():
+    out = []
+    for m in range(16):
+        out.append({'EXT': m & 1, 'ECU': (m >> 1) & 1, 'SEID': (m >> 2) & 1, 'TMSP': (m >> 3) & 1})
+    return out
+
+
+def reader_tables(F, sz, ts, bits):
+    """(size table, timestamp-offset table) by constant propagation over all 16 flag valuations, or None if not computable"""
+    sizes, offs = {}, {}
+    try:
+        for fl in flag_valuations():
+            key = tuple(sorted(k for k, v in fl.items() if v))
+            kind, v = const_run(F, sz, fl, bits)
+            if kind != 'ret' or v is None:
+                return None
+            sizes[key] = v
+            if fl['TMSP']:
+                kind, v = const_run(F, ts, fl, bits, stop_at_index=True)
+                if kind != 'index':
+                    return None
+                offs[key] = v
+            else:
+                kind, v = const_run(F, ts, fl, bits, stop_at_index=True)
+                offs[key] = ('no-read', v) if kind == 'ret' else ('index', v)
+    except Unknown:
+        return None
+    return sizes, offs
